@@ -204,6 +204,73 @@ class C07(PropertyCheck):
         "quick": "every rectangular mesh shape 3..6 x 3..6 (real Mesh2DRectangular neighbour tables) under each of the 7 non-split schemes",
         "thorough": "every rectangular mesh shape 3..9 x 3..9 (real Mesh2DRectangular neighbour tables) under each of the 7 non-split schemes",
     }
+    modelled_functions = [
+        "autoarray/inversion/regularization/regularization_util.py:zeroth_regularization_matrix_from",
+        "autoarray/inversion/regularization/regularization_util.py:constant_regularization_matrix_from",
+        "autoarray/inversion/regularization/regularization_util.py:constant_zeroth_regularization_matrix_from",
+        "autoarray/inversion/regularization/regularization_util.py:adaptive_regularization_weights_from",
+        "autoarray/inversion/regularization/regularization_util.py:brightness_zeroth_regularization_weights_from",
+        "autoarray/inversion/regularization/regularization_util.py:weighted_regularization_matrix_from",
+        "autoarray/inversion/regularization/regularization_util.py:brightness_zeroth_regularization_matrix_from",
+        "autoarray/inversion/regularization/regularization_util.py:reg_split_from",
+        "autoarray/inversion/regularization/regularization_util.py:pixel_splitted_regularization_matrix_from",
+        "autoarray/inversion/regularization/constant.py:Constant.__init__",
+        "autoarray/inversion/regularization/constant.py:Constant.regularization_weights_from",
+        "autoarray/inversion/regularization/constant.py:Constant.regularization_matrix_from",
+        "autoarray/inversion/regularization/constant_zeroth.py:ConstantZeroth.__init__",
+        "autoarray/inversion/regularization/constant_zeroth.py:ConstantZeroth.regularization_weights_from",
+        "autoarray/inversion/regularization/constant_zeroth.py:ConstantZeroth.regularization_matrix_from",
+        "autoarray/inversion/regularization/zeroth.py:Zeroth.__init__",
+        "autoarray/inversion/regularization/zeroth.py:Zeroth.regularization_weights_from",
+        "autoarray/inversion/regularization/zeroth.py:Zeroth.regularization_matrix_from",
+        "autoarray/inversion/regularization/adaptive_brightness.py:AdaptiveBrightness.__init__",
+        "autoarray/inversion/regularization/adaptive_brightness.py:AdaptiveBrightness.regularization_weights_from",
+        "autoarray/inversion/regularization/adaptive_brightness.py:AdaptiveBrightness.regularization_matrix_from",
+        "autoarray/inversion/regularization/brightness_zeroth.py:BrightnessZeroth.__init__",
+        "autoarray/inversion/regularization/brightness_zeroth.py:BrightnessZeroth.regularization_weights_from",
+        "autoarray/inversion/regularization/brightness_zeroth.py:BrightnessZeroth.regularization_matrix_from",
+        "autoarray/inversion/regularization/constant_split.py:ConstantSplit.__init__",
+        "autoarray/inversion/regularization/constant_split.py:ConstantSplit.regularization_matrix_from",
+        "autoarray/inversion/regularization/adaptive_brightness_split.py:AdaptiveBrightnessSplit.__init__",
+        "autoarray/inversion/regularization/adaptive_brightness_split.py:AdaptiveBrightnessSplit.regularization_matrix_from",
+        "autoarray/inversion/regularization/gaussian_kernel.py:gauss_cov_matrix_from",
+        "autoarray/inversion/regularization/gaussian_kernel.py:GaussianKernel.__init__",
+        "autoarray/inversion/regularization/gaussian_kernel.py:GaussianKernel.regularization_weights_from",
+        "autoarray/inversion/regularization/gaussian_kernel.py:GaussianKernel.regularization_matrix_from",
+        "autoarray/inversion/regularization/exponential_kernel.py:exp_cov_matrix_from",
+        "autoarray/inversion/regularization/exponential_kernel.py:ExponentialKernel.__init__",
+        "autoarray/inversion/regularization/exponential_kernel.py:ExponentialKernel.regularization_weights_from",
+        "autoarray/inversion/regularization/exponential_kernel.py:ExponentialKernel.regularization_matrix_from",
+        "autoarray/inversion/regularization/abstract.py:AbstractRegularization.__init__",
+        "autoarray/inversion/pixelization/mappers/mapper_util.py:adaptive_pixel_signals_from",
+        "autoarray/inversion/pixelization/mappers/abstract.py:AbstractMapper.pixel_signals_from",
+        "autoarray/inversion/pixelization/mappers/abstract.py:AbstractMapper.params",
+        "autoarray/inversion/pixelization/mappers/abstract.py:AbstractMapper.neighbors",
+        "autoarray/inversion/pixelization/mappers/abstract.py:AbstractMapper.pix_indexes_for_sub_slim_index",
+        "autoarray/inversion/pixelization/mappers/abstract.py:AbstractMapper.pix_sizes_for_sub_slim_index",
+        "autoarray/inversion/pixelization/mappers/abstract.py:AbstractMapper.pix_weights_for_sub_slim_index",
+        "autoarray/inversion/pixelization/mappers/delaunay.py:MapperDelaunay.pix_sub_weights_split_cross",
+        "autoarray/inversion/linear_obj/linear_obj.py:LinearObj.__init__",
+        "autoarray/inversion/linear_obj/linear_obj.py:LinearObj.regularization_matrix",
+        "autoarray/inversion/linear_obj/neighbors.py:Neighbors.__new__",
+        "autoarray/inversion/inversion/abstract.py:AbstractInversion.regularization_matrix",
+        "autoarray/inversion/inversion/abstract.py:AbstractInversion.regularization_matrix_reduced",
+        "autoarray/inversion/inversion/abstract.py:AbstractInversion.no_regularization_index_list",
+        "autoarray/inversion/inversion/abstract.py:AbstractInversion.all_linear_obj_have_regularization",
+        "autoarray/inversion/inversion/abstract.py:AbstractInversion.regularization_list",
+        "autoarray/inversion/inversion/abstract.py:AbstractInversion.param_range_list_from",
+        "autoarray/inversion/inversion/abstract.py:AbstractInversion.total_params",
+        "autoarray/structures/mesh/rectangular_2d.py:Mesh2DRectangular.neighbors",
+        "autoarray/structures/mesh/delaunay_2d.py:Mesh2DDelaunay.neighbors",
+        "autoarray/structures/mesh/triangulation_2d.py:Abstract2DMeshTriangulation.split_cross",
+        "autoarray/inversion/pixelization/mesh/mesh_util.py:rectangular_neighbors_from",
+        "autoarray/inversion/pixelization/mesh/mesh_util.py:rectangular_corner_neighbors",
+        "autoarray/inversion/pixelization/mesh/mesh_util.py:rectangular_top_edge_neighbors",
+        "autoarray/inversion/pixelization/mesh/mesh_util.py:rectangular_left_edge_neighbors",
+        "autoarray/inversion/pixelization/mesh/mesh_util.py:rectangular_right_edge_neighbors",
+        "autoarray/inversion/pixelization/mesh/mesh_util.py:rectangular_bottom_edge_neighbors",
+        "autoarray/inversion/pixelization/mesh/mesh_util.py:rectangular_central_neighbors",
+    ]
     trusted_extra = [
         "numpy.linalg.inv (contract C·inv(C) = I; checked per case against an exact rational inverse / residual)",
         "numpy/libm sqrt, exp of the kernel schemes (parameters of the model; driver uses Float.sqrt/exp, 1e-9)",
